@@ -101,6 +101,7 @@ struct RootLab {
     profile: Profile,
     bucket: Bucket,
     edges: Vec<Edge>,
+    expected: Vec<f64>,
 }
 impl RootLab {
     fn new() -> Self {
@@ -120,13 +121,39 @@ impl RootLab {
             let edges = Vec::<Edge>::from(bucket.2.clone());
             (bucket, edges)
         };
-        Self { enc, tree, root_index, profile, bucket, edges }
+        Self { enc, tree, root_index, profile, bucket, edges, expected: vec![] }
     }
+    /// store `policy` as the accumulated policy of the root information set (with stored REGRETS that
+    /// are deliberately not proportional to it: the policy reversed) and return the weights the real
+    /// `Profile::weight` hands out; `self.expected` holds policy / sum(policy) computed here
     fn set(&mut self, policy: &[f32]) -> Vec<f32> {
-        for (e, w) in self.edges.iter().zip(policy) {
-            self.profile.verif_set_memory(&self.bucket, e, 1.0, *w);
+        let m = policy.len();
+        for (i, (e, w)) in self.edges.iter().zip(policy).enumerate() {
+            self.profile.verif_set_memory(&self.bucket, e, policy[m - 1 - i] * 3.0 + 0.25, *w);
         }
+        let total: f64 = policy.iter().map(|w| *w as f64).sum();
+        self.expected = policy.iter().map(|w| *w as f64 / total).collect();
         self.edges.iter().map(|e| self.profile.weight(&self.bucket, e)).collect()
+    }
+    /// `Profile::weight` must be the normalised stored policy (the probability "the current profile gives")
+    fn weights_as_specified(&self, weights: &[f32]) -> Option<(usize, f64, f32)> {
+        weights.iter().enumerate().find_map(|(i, w)| {
+            let x = self.expected[i];
+            if ((*w as f64) - x).abs() > 1e-5 * x + 1e-37 { Some((i, x, *w)) } else { None }
+        })
+    }
+    /// the same question on the calling thread and on a fresh thread
+    fn ask_both(&mut self, epoch: usize) -> (Option<usize>, Option<usize>) {
+        self.profile.verif_set_epochs(epoch);
+        let root = self.tree.at(self.root_index);
+        let here = catch(std::panic::AssertUnwindSafe(|| one(&self.profile, &self.enc, &root))).flatten();
+        let profile = &self.profile;
+        let enc = &self.enc;
+        let root = &root;
+        let there = std::thread::scope(|s| {
+            s.spawn(move || catch(std::panic::AssertUnwindSafe(|| one(profile, enc, root))).flatten()).join().unwrap_or(None)
+        });
+        (here, there)
     }
     fn ask(&mut self, epochs: std::ops::Range<usize>) -> Vec<Option<usize>> {
         let mut out = vec![];
@@ -153,11 +180,16 @@ fn main() {
     quiet_panics();
     let enc = Encoder::default();
     let bp = Blueprint::verif_new(Profile::default(), Encoder::default());
-    train(&bp, 6, 24);
+    let trained = catch(std::panic::AssertUnwindSafe(|| train(&bp, 6, 24))).is_some();
+    if !trained {
+        run.fail("solver-sampling-aborts", "Blueprint training: 6 epochs x 24 sampled trees from a fresh profile", "trees are sampled and the profile updated", "panic inside the real tree sampling / update (run with VERIF_LOUD=1 to see it)");
+    }
     let profile = bp.verif_profile();
     let ntrees = if a.thorough() { 400 } else { 60 };
     let nthreads = if a.thorough() { 8 } else { 3 };
     run.rule = format!("profile trained 6 epochs x 24 trees; {ntrees} sampled trees, every opponent decision node: real explore_one asked 3x on the main thread and once on each of {nthreads} fresh threads, compared with each other and with the model's predicted index; nodes of different trees sharing (epoch, bucket) must agree; epochs swept 0..N at fixed buckets for the chi-square test; synthetic chance branch lists of size 2..40 for explore_any; Layer::init on random river-histogram point sets, twice, on fresh threads and under rayon pools of 1/3/8 threads; a case is non-trivial when the node offers >= 2 branches; distinct by (epoch, bucket)");
+    let with_bp = std::panic::catch_unwind(std::panic::AssertUnwindSafe(|| {
+    if !trained { return; }
     // ---- 1. explore_one at real opponent nodes, many threads, many trees
     let mut seen: BTreeMap<(usize, String), usize> = BTreeMap::new();
     let mut sweep: Vec<(Bucket, Vec<f32>)> = vec![];
@@ -365,6 +397,67 @@ fn main() {
             }
         }
     }
+    // ---- 3b. explore_any over epochs: every chance branch equally likely, for branch counts that are
+    // and are not powers of two (the model line predicts each answer; the oracle tests the frequencies)
+    {
+        let tree = bp.verif_tree();
+        let nodes = tree.all();
+        let chance: Vec<&Node> = nodes.iter().filter(|n| n.player() == Player::chance()).collect();
+        let nep: usize = if a.thorough() { 12000 } else { 2500 };
+        if let Some(node) = chance.first() {
+            let game = *node.data().game();
+            let mut prof = Profile::default();
+            for n in [2usize, 3, 5, 6, 7, 9, 12, 16, 17, 40] {
+                // n distinct boards
+                let mut boards: Vec<u64> = vec![];
+                let mut guard = 0;
+                while boards.len() < n && guard < 10_000 {
+                    guard += 1;
+                    let mut deck = game.deck();
+                    let cards = deck.deal(game.street());
+                    let g = game.apply(Action::Draw(cards));
+                    let bd = u64::from(robopoker::cards::hand::Hand::from(g.board()));
+                    if !boards.contains(&bd) { boards.push(bd); }
+                }
+                if boards.len() < n { continue; }
+                let old = u64::from(robopoker::cards::hand::Hand::from(game.board()));
+                let mut hist = vec![0u64; n];
+                let mut bad = 0u64;
+                for e in 0..nep {
+                    prof.verif_set_epochs(e);
+                    let choices: Vec<Branch> = boards.iter().map(|bd| {
+                        let g = game.apply(Action::Draw(robopoker::cards::hand::Hand::from(bd & !old)));
+                        Branch(Data::from((g, enc.abstraction(&g))), Edge::Draw, node.index())
+                    }).collect();
+                    let got = catch(std::panic::AssertUnwindSafe(|| {
+                        let chosen = prof.explore_any(choices, node);
+                        if chosen.len() != 1 { return None; }
+                        let bd = u64::from(robopoker::cards::hand::Hand::from(chosen[0].0.game().board()));
+                        boards.iter().position(|b| *b == bd)
+                    })).flatten();
+                    match got { Some(i) => hist[i] += 1, None => bad += 1 }
+                    if e < 3 {
+                        run.line(&format!("any {} {} {}", e, key(node.bucket()), n), &match got { Some(i) => i.to_string(), None => "panic".into() });
+                    }
+                }
+                run.evaluations += nep as u64;
+                run.spec_checked += 1;
+                let pr = 1.0 / n as f64;
+                let mean = nep as f64 * pr;
+                let sigma = (nep as f64 * pr * (1.0 - pr)).sqrt().max(1.0);
+                let worst = (0..n).max_by(|x, y| ((hist[*x] as f64 - mean).abs()).partial_cmp(&(hist[*y] as f64 - mean).abs()).unwrap()).unwrap();
+                if bad > 0 || (hist[worst] as f64 - mean).abs() > 6.0 * sigma {
+                    run.fail("chance-branch-not-uniform", &format!("explore_any at {} with {n} chance branches, epochs 0..{nep}", key(node.bucket())),
+                        &format!("each branch about {mean:.0} times, exactly one branch returned every time"), &format!("branch {worst} {} times, {bad} malformed answers (all: {:?})", hist[worst], hist));
+                }
+                run.count(&format!("explore_any-frequency n={n:02}"));
+            }
+        }
+    }
+    }));
+    if with_bp.is_err() {
+        run.fail("solver-sampling-aborts", "sections that sample trees through Blueprint::tree with the trained profile", "no abort", "panic inside the real code (run with VERIF_LOUD=1 to see it)");
+    }
     // ---- 5. another run of the program must make the same choices (no per-process random keys)
     {
         quiet_panics();
@@ -489,7 +582,7 @@ fn main() {
                 // some actions with negligible accumulated weight (below f32 epsilon relative to the rest)
                 for _ in 0..1 + rng.below(4) {
                     let j = rng.below(m as u64) as usize;
-                    policy[j] = [1e-9f32, 1e-12, 1e-20, f32::MIN_POSITIVE][rng.below(4) as usize];
+                    policy[j] = [1e-9f32, 1e-12, 1e-20, f32::MIN_POSITIVE, 0.0, 0.0][rng.below(6) as usize]; // incl. exactly zero (a loaded or fully decayed row)
                 }
             }
             let w = lab.set(&policy);
@@ -527,10 +620,12 @@ fn main() {
             }
             run.evaluations += n as u64;
             run.spec_checked += 1;
-            let total: f64 = weights.iter().map(|w| *w as f64).sum();
+            if let Some((i, want, got)) = lab.weights_as_specified(&weights) {
+                run.fail("weight-not-the-normalised-stored-policy", &format!("wide root bucket {}, stored policy {:?}", key(&lab.bucket), policy), &format!("Profile::weight of edge {i} = {want:e}"), &format!("{got:e}"));
+            }
             let fsum: f32 = weights.iter().sum();
-            for (i, w) in weights.iter().enumerate() {
-                let p = *w as f64 / total;
+            for i in 0..weights.len() {
+                let p = lab.expected[i];
                 let mean = n as f64 * p;
                 let sigma = (n as f64 * p * (1.0 - p)).sqrt().max(1.0);
                 if (hist[i] as f64 - mean).abs() > 6.0 * sigma {
@@ -542,6 +637,39 @@ fn main() {
             run.count("wide-menu-frequency-test");
             run.distinct(&("wide", weights.iter().map(|w| w.to_bits()).collect::<Vec<_>>()));
         }
+    }
+    // ---- 10. the profile changes WITHIN an epoch (as it does between a batch's tree sampling and
+    // `Profile::next`): ask, update the information set's stored policy, ask again at the same
+    // epoch on the same thread and on a fresh thread. The answer is a function of (epoch,
+    // information set, current weights): both threads must agree, and the model line predicts it.
+    {
+        let mut lab = RootLab::new();
+        let m = lab.edges.len();
+        let nrep = if a.thorough() { 4000 } else { 600 };
+        let mut disagreements = 0u64;
+        for j in 0..nrep {
+            let epoch = (j * 37 + 5) as usize;
+            let heavy_a = rng.below(m as u64) as usize;
+            let mut heavy_b = rng.below(m as u64) as usize;
+            if heavy_b == heavy_a { heavy_b = (heavy_b + 1) % m; }
+            for (k, heavy) in [heavy_a, heavy_b].into_iter().enumerate() {
+                let policy: Vec<f32> = (0..m).map(|i| if i == heavy { 1.0 } else { 1.0e-4 * (1.0 + rng.below(100) as f32 / 100.0) }).collect();
+                let weights = lab.set(&policy);
+                let (here, there) = lab.ask_both(epoch);
+                run.evaluations += 2;
+                run.spec_checked += 1;
+                let op = format!("one {} {} {}", epoch, key(&lab.bucket), weights.iter().map(|w| w.to_bits().to_string()).collect::<Vec<_>>().join(" "));
+                run.line(&op, &match here { Some(i) => i.to_string(), None => "panic".into() });
+                if here != there {
+                    disagreements += 1;
+                    run.fail("choice-not-reproducible", &format!("{op} ({} update of this information set within epoch {epoch}: asked on the updating thread and on a fresh thread)", if k == 0 { "before the" } else { "after an" }),
+                        &format!("the same branch on both threads (fresh thread: {:?})", there), &format!("{:?} on the thread that asked before the update", here));
+                }
+                run.distinct(&("within-epoch", epoch, k));
+            }
+            run.count("within-epoch-update");
+        }
+        run.count(&format!("within-epoch-update disagreements={disagreements}"));
     }
     // ---- 4. Layer::init twice / threads / rayon pools
     let npoints = if a.thorough() { 400 } else { 180 };
